@@ -5,7 +5,7 @@
    validates on adversarial keyword sets on every run (one document per keyword). *)
 From Coq Require Import List NArith ZArith Bool.
 From BE Require Import Model.GoTypes Model.GoVal Model.Parsers Model.Index Proofs.AcProof.
-From BE Require Gen.IdsGen Proofs.IndexCorrect Proofs.HoldersBuildInv Proofs.IndexCorrectHolders Proofs.NonVacuous.
+From BE Require Gen.IdsGen Proofs.IndexCorrect Proofs.HoldersBuildInv Proofs.IndexCorrectHolders Proofs.NonVacuous Model.Spec Proofs.SpecBridge Proofs.SpecBridgeHolders.
 Import ListNotations.
 
 Theorem C05_substring_means_contiguous_occurrence : forall k t,
@@ -61,6 +61,29 @@ Theorem C05_pattern_hit_rule : forall p v e,
                exists w, In w ks /\ substring w t = true.
 Proof. exact IndexCorrectHolders.ehit_ac_iff. Qed.
 
+(* AGAINST THE SPECIFICATION (Model/Spec.v) for builders with any mix of containers (Proofs/SpecBridgeHolders.v): the
+   reported (document, position, size) triples are a permutation of sat_hits over the configured field table.
+   doc_good' = values are Go values the model represents exactly AND lie in the specification's domain
+   (doc_dom, a boolean: keywords non-empty; a range expression's interval representable, i.e. not `> MaxInt64`,
+   `< MinInt64`, between [MaxInt64, MaxInt64] -- in particular every bound of magnitude <= 2^62);
+   asg_good' = assigned values are supported; asg_dom_for = no assigned integer is MaxInt64 on a field with a `>`. *)
+Theorem C05_hits_are_the_specifications_any_container : forall kind pol thr parsers cfgl st0 ds st os q,
+  HoldersBuildInv.config_fields (new_builder kind pol thr parsers) cfgl = Some st0 ->
+  add_documents false st0 ds = (st, os) -> Forall (eq AddOk) os -> NoDup (map d_id ds) ->
+  (forall d cj, In d ds -> In cj (d_conjs d) -> NoDup (map fst cj)) ->
+  (forall d, In d ds -> SpecBridgeHolders.doc_good' parsers (HoldersBuildInv.cfg_of cfgl) d) ->
+  (pol <> PolSkip \/ forall d cj, In d ds -> In cj (d_conjs d) ->
+       Spec.conj_sem (SpecBridgeHolders.cfg_fields parsers cfgl) parsers cj <> None) ->
+  ((- two64 < thr)%Z \/ forall d cj, In d ds -> In cj (d_conjs d) -> HoldersBuildInv.conj_rwf thr (HoldersBuildInv.cfg_of cfgl) cj) ->
+  NoDup (map fst q) -> SpecBridgeHolders.asg_good' parsers cfgl q ->
+  SpecBridgeHolders.asg_dom_for (HoldersBuildInv.cfg_of cfgl) ds q ->
+  (kind = IKGroups -> forall f v, In (f, v) q -> HoldersBuildInv.cfg_of cfgl f = CAc -> IndexCorrectHolders.nil_slice_wf v) ->
+  exists hits spec_hits,
+    retrieve_hits (build_index st) q = ROk hits /\
+    Spec.sat_hits (SpecBridgeHolders.cfg_fields parsers cfgl) parsers pol Spec.pl_docok ds q = Some spec_hits /\
+    Permutation.Permutation (map (fun h : hitrec => SpecBridge.triple (snd h)) hits) spec_hits.
+Proof. exact SpecBridgeHolders.index_sat_hits_holders. Qed.
+
 (* the hypotheses of the end-to-end theorem are met by a concrete builder with a pattern and a range field,
    three documents (kept interval, expanded between, `in`, include and exclude keywords) and two assignments,
    for which the concrete retrievals return [12] and [10] *)
@@ -74,8 +97,20 @@ Example C05_nonvacuous :
   ac_query_text [32%N] (VSlice TSstring false [VStr [97]%N; VStr [98]%N]) = POk [97; 32; 98]%N.
 Proof. vm_compute. repeat split. Qed.
 
+(* non-vacuity of the specification-level theorem: every hypothesis discharged on a concrete builder with pattern,
+   range and default fields, both index kinds *)
+Example C05_spec_nonvacuous : forall k st os,
+  add_documents false (SpecBridgeHolders.BridgeWitnessH.st0 k) SpecBridgeHolders.BridgeWitnessH.ds = (st, os) ->
+  exists hits spec_hits,
+    retrieve_hits (build_index st) IndexCorrectHolders.WitnessH.q1 = ROk hits /\
+    Spec.sat_hits SpecBridgeHolders.BridgeWitnessH.fields IndexCorrectHolders.WitnessH.ps PolError Spec.pl_docok
+      SpecBridgeHolders.BridgeWitnessH.ds IndexCorrectHolders.WitnessH.q1 = Some spec_hits /\
+    Permutation.Permutation (map (fun h : hitrec => SpecBridge.triple (snd h)) hits) spec_hits.
+Proof. exact SpecBridgeHolders.BridgeWitnessH.sat_hits_instance. Qed.
+
 Print Assumptions C05_substring_means_contiguous_occurrence.
 Print Assumptions C05_holder_selects_by_substring.
 Print Assumptions C05_texts_joined_by_one_space.
 Print Assumptions C05_any_container_index_exact.
 Print Assumptions C05_pattern_hit_rule.
+Print Assumptions C05_hits_are_the_specifications_any_container.
